@@ -1,0 +1,13 @@
+//go:build verif && gc && !purego && (amd64 || loong64 || ppc64 || ppc64le || riscv64)
+
+package poly1305
+
+// VerifHasAsm reports whether this build contains an assembly update.
+func VerifHasAsm() bool { return true }
+
+// VerifUpdateAsm absorbs msg with the assembly update.
+func VerifUpdateAsm(v *VerifState, msg []byte) {
+	m := v.in()
+	update(&m, msg)
+	v.out(m)
+}
